@@ -152,6 +152,9 @@ func (s *Stack) Lookup(name string) (any, bool) {
 //
 // It returns (value, true) if resolution succeeded.
 func (s *Stack) Resolve(expr string) (any, bool) {
+	// (white space around a path is not part of it, with or without dots)
+	expr = strings.TrimSpace(expr)
+
 	// Fast path: if no dots or brackets, do direct lookup
 	if !strings.ContainsAny(expr, ".[") {
 		return s.Lookup(expr)
